@@ -722,6 +722,36 @@ namespace
         }
     };
 
+    // ---------- structural list inputs: the two ports are read through a TSL path; AllValid vs default validity ----------
+    using L2 = TSL<TS<Int>, 2>;
+    template <typename TIn>
+    void lsum_eval(long id, const TIn &xs, const NodeView &self, DateTime now, Out<TS<Int>> &out)
+    {
+        FnLog log(id, self, now);
+        auto  a = xs[0];
+        auto  b = xs[1];
+        log.ins({in_rec(a), in_rec(b)});
+        const long v = (a.valid() ? static_cast<long>(a.value()) : 0) + (b.valid() ? static_cast<long>(b.value()) : 0);
+        out.set(Int{v});
+        log.out(v).emit();
+    }
+    struct VLSum   // runs only when every element holds a value
+    {
+        static constexpr auto name = "v_lsum";
+        static void eval(Scalar<"id", Int> id, In<"xs", L2, InputValidity::AllValid> xs, NodeView self, DateTime now, Out<TS<Int>> out)
+        {
+            lsum_eval(id.value(), xs, self, now, out);
+        }
+    };
+    struct VLSumV  // default validity: the list is valid as soon as one element is
+    {
+        static constexpr auto name = "v_lsumv";
+        static void eval(Scalar<"id", Int> id, In<"xs", L2> xs, NodeView self, DateTime now, Out<TS<Int>> out)
+        {
+            lsum_eval(id.value(), xs, self, now, out);
+        }
+    };
+
     using TryIntResult = UnNamedTSB<Field<"exception", TS<NodeError>>, Field<"out", TS<Int>>>;
 
     struct VTryOut
@@ -904,6 +934,8 @@ namespace
             else if (kind == "pass") { env.ports.emplace(id, wire<VPass>(w, sid, in.at(0))); }
             else if (kind == "add") { env.ports.emplace(id, wire<VAdd>(w, sid, Int{l.geti("k", 1)}, in.at(0))); }
             else if (kind == "sum2") { env.ports.emplace(id, wire<VSum2>(w, sid, in.at(0), in.at(1))); }
+            else if (kind == "lsum") { env.ports.emplace(id, wire<VLSum>(w, sid, {in.at(0).erased(), in.at(1).erased()})); }
+            else if (kind == "lsumv") { env.ports.emplace(id, wire<VLSumV>(w, sid, {in.at(0).erased(), in.at(1).erased()})); }
             else if (kind == "sumu") { env.ports.emplace(id, wire<VSumU>(w, sid, in.at(0), in.at(1))); }
             else if (kind == "sample") { env.ports.emplace(id, wire<VSample>(w, sid, in.at(0), in.at(1))); }
             else if (kind == "acc") { env.ports.emplace(id, wire<VAcc>(w, sid, in.at(0))); }
